@@ -161,7 +161,9 @@ def read_location(location) -> dict:
 
 class Case:
     """ everything the subchecks need about one generated gene """
-    def __init__(self, spec: dict) -> None:
+    def __init__(self, spec: dict, shared: dict = None) -> None:
+        """ shared = {"sequence", "record", "name"}: the gene lives on a record that holds other genes too
+            (its spec then carries coordinates on that record; the sequence was assembled by the caller) """
         from Bio.Seq import Seq
         from Bio.SeqFeature import SeqFeature
         from antismash.common.secmet.features import CDSFeature
@@ -171,9 +173,14 @@ class Case:
         self.codon_start = spec["codon_start"]
         self.spanning = gen.is_span(self.loc)
         self.multi = len(self.loc["parts"]) > 1
-        self.sequence = build_sequence(spec)
+        self.name = shared["name"] if shared else "geneA"
+        if shared:
+            self.sequence = shared["sequence"]
+            self.record = shared["record"]
+        else:
+            self.sequence = build_sequence(spec)
+            self.record = make_record(spec["L"], spec["circular"], self.sequence)
         self.seq = Seq(self.sequence)
-        self.record = make_record(spec["L"], spec["circular"], self.sequence)
         # the oracle's view of the gene
         self.order = transcript(self.loc)[self.codon_start - 1:]
         self.gene_bases = frozenset(self.order)
@@ -197,7 +204,7 @@ class Case:
         self.order_by_coordinate = transcript({"parts": ordered, "strand": self.strand})[self.codon_start - 1:]
         # the real gene, through the real constructor
         bio = SeqFeature(real_location(self.loc, spec.get("partial", "")), type="CDS")
-        bio.qualifiers["locus_tag"] = ["geneA"]
+        bio.qualifiers["locus_tag"] = [self.name]
         if self.codon_start != 1 or spec.get("explicit_codon_start"):
             bio.qualifiers["codon_start"] = [str(self.codon_start)]
         self.rejected = None
@@ -479,7 +486,8 @@ def _bucket(count: int) -> str:
 # --------------------------------------------------------------------------- subcheck: prepeptides
 
 def check_prepeptide(spec: dict) -> dict:
-    """ Prepeptide.to_biopython: leader / core / tail features """
+    """ Prepeptide.to_biopython: leader / core / tail features, of the fresh prepeptide and of the one
+        Record.from_biopython rebuilds from those features (Prepeptide.from_biopython, build_location_from_others) """
     from antismash.common.secmet.features import Prepeptide
     from antismash.common.secmet.locations import location_from_string
     case = Case(spec)
@@ -548,10 +556,72 @@ def check_prepeptide(spec: dict) -> dict:
     def code_range(start: int, end: int) -> tuple:
         return code[by_range[(start, end)]]
 
-    run_ranges(case, ranges, produce, "prepeptide", code_range)
+    # a failure that a known defect explains is held back so that the re-read prepeptide is judged too
+    pending = None
+    try:
+        run_ranges(case, ranges, produce, "prepeptide", code_range)
+    except Violation as vio:
+        if not (isinstance(vio.detail, dict) and vio.detail.get("all_explained_by")):
+            raise
+        pending = vio
+
+    # the same annotations after the record has been written out and read back: Record.from_biopython
+    # rebuilds the prepeptide from its core feature (its location from the stored leader/core/tail locations)
+    # and its sections are produced again from that
+    reread = _reread_prepeptide(case, peptide)
+    again: dict = {}
+    for feature in reread:
+        section = feature.qualifiers.get("prepeptide", ["?"])[0]
+        if section in again or section not in stretches:
+            raise Violation("reread_prepeptide_sections", {"sections": [f.qualifiers.get("prepeptide") for f in reread]})
+        again[section] = feature
+    if set(again) != wanted_sections:
+        raise Violation("reread_prepeptide_sections", {"got": sorted(again), "want": sorted(wanted_sections)})
+
+    def produce_again(start: int, end: int):
+        name = by_range[(start, end)]
+        return again[name].location, claimed[name]
+
+    try:
+        run_ranges(case, ranges, produce_again, "reread_prepeptide", code_range)
+    except Violation as vio:
+        if not (isinstance(vio.detail, dict) and vio.detail.get("all_explained_by")):
+            raise
+        # the known defects look the same before and after; report them under the first pass's clause
+        pending = pending or vio
+    if pending is not None:
+        raise pending
+
     labels = classes_of(case)
     labels.append("sections_" + "".join(name[0] for name in order))
+    compound = [name for name in order if len(produced[name].location.parts) > 1]
+    labels.append(f"sections_over_introns_{len(compound)}")
+    if any(a in compound and b in compound for a, b in zip(order, order[1:])):
+        labels.append("consecutive_sections_over_introns")
+        labels.append(f"consecutive_sections_over_introns_strand_{case.strand}")
     return {"nontrivial": nontrivial(case), "classes": labels}
+
+
+def _reread_prepeptide(case: Case, peptide) -> list:
+    """ fresh biopython features of the prepeptide -> a SeqRecord holding just them -> Record.from_biopython
+        -> the one Prepeptide it rebuilt -> its biopython features """
+    from Bio.SeqRecord import SeqRecord
+    from antismash.common.secmet.features import Prepeptide
+    from antismash.common.secmet.record import Record
+    try:
+        written = peptide.to_biopython()
+        bio_record = SeqRecord(case.seq, id="rec1", name="rec1", features=written,
+                               annotations={"molecule_type": "DNA",
+                                            "topology": "circular" if case.spec["circular"] else "linear"})
+        record = Record.from_biopython(bio_record, taxon="bacteria")
+        rebuilt = [motif for motif in record.get_cds_motifs() if isinstance(motif, Prepeptide)]
+        if len(rebuilt) != 1:
+            raise Violation("reread_prepeptide_lost", {"prepeptides": len(rebuilt), "features_written": len(written)})
+        return rebuilt[0].to_biopython()
+    except Violation:
+        raise
+    except Exception as err:  # pylint: disable=broad-except
+        raise Violation("reread_prepeptide_exception", _exc_detail(err)) from err
 
 
 # --------------------------------------------------------------------------- subcheck: domains and motifs
